@@ -13,14 +13,14 @@ def describe(tier):
     return {
         'rule': 'case = (scheme, configuration point of G(S) - including every point where a width differs from the default the '
                 'fixed-offset parsers could wrongly assume -, every partition of every N<=%d in both orders + boundary profiles <=40, '
-                'every stored keyword + 3 absent ones). The client instance is built from cfg; a SECOND instance built from '
+                'every stored keyword + 3 absent ones; plus, per configuration point, 10 keys whose bytes follow awkward patterns - trailing LF / CRLF / NUL / space, leading NUL / LF, all-LF, all-space, all-0xff, ASCII digits). The client instance is built from cfg; a SECOND instance built from '
                 'json.loads(json.dumps(cfg)) plays the server and sees only EDB.serialize() and Token.serialize(); a THIRD instance '
                 '(also from the JSON round trip) reloads the key from Key.serialize() and generates the tokens. Oracle: '
                 'Result.deserialize(server_result.serialize()) has content DB.get(w, empty); deserialize(serialize(x)) == x '
                 'for key, token, EDB, result. non-trivial = keyword present.' % n,
         'bounds': 'N<=%d exhaustive over partitions' % n,
         'assumptions': ['a configuration that cannot set up is skipped and counted (C01/C08 own it)'],
-        'must_be_nonzero': ['key-roundtrip', 'token-roundtrip', 'edb-roundtrip', 'result-roundtrip', 'absent'],
+        'must_be_nonzero': ['key-roundtrip', 'token-roundtrip', 'edb-roundtrip', 'result-roundtrip', 'absent', 'patterned-keys'],
     }
 
 
@@ -30,6 +30,8 @@ def case_list(name, label, cfg, tier):
     cases += [(p, 1, 'shared') for p in domains.profiles(3)]
     lens = [v for v in domains.around(sse.special_lengths(name, cfg, tier)) if v <= 40]
     cases += [(p, 6, 'disjoint') for p in domains.boundary_profiles(lens, extra=False)]
+    # key material with awkward byte values (a key is bytes, not text): KeyGen is fed a patterned os.urandom
+    cases += [([2, 1], 6, 'keypattern:' + pat) for pat in det.KEY_PATTERNS]
     return sse.dedup_valid(name, cfg, cases)
 
 
@@ -40,14 +42,18 @@ def units(tier, seed):
 def run_case(r, seed, name, label, cfg, profile, kwlen, relation):
     case = {'scheme': name, 'label': label, 'cfg': cfg, 'profile': profile, 'kwlen': kwlen, 'relation': relation}
     core.note_case(case)
-    db, cfg1, g = sse.build_db(seed, name, label, cfg, profile, kwlen, relation)
+    db, cfg1, g = sse.build_db(seed, name, label, cfg, profile, kwlen, 'disjoint' if relation.startswith('keypattern') else relation)
     absent = [w for _, w in domains.absent_keywords(db, sse.kw_limit(name, cfg), g)][:3]
     det.seed_case(seed, PROPERTY, name, label, tuple(profile), kwlen, relation)
     L = sse.loader(name)
     r['states'] += 1
     try:
         client = L.SSEScheme(cfg1)
+        if relation.startswith('keypattern:'):
+            det.pattern_urandom(relation.split(':', 1)[1], seed, name, label)
+            r.count('patterned-keys')
         key = client.KeyGen()
+        det.seed_case(seed, PROPERTY, name, label, tuple(profile), kwlen, relation)
         edb = client.EDBSetup(key, db)
         r['transitions'] += 2
     except Exception as e:
